@@ -22,7 +22,7 @@ CLAIMED = {
           "proof for all functions and variable sets in the three representations; tie exhaustive on functions of <= 3 variables x all subsets of a 4-name universe", "C06/C07"),
  "C07": C("Coq theorems (derivative = xor-elimination = parity over all assignments; single variable; independent variable; empty set) + differential correspondence",
           "proof for all functions and variable sets; tie exhaustive as C06", "C06/C07"),
- "C08": C("Coq theorems (substitution = simultaneous composition; only the documented refusal panics; keys stay only if mentioned) + differential correspondence",
+ "C08": C("Coq theorems (substitution = simultaneous composition; only the documented refusal panics; keys stay only if mentioned; rename_literals is substitution by variables) + differential correspondence",
           "proof for all functions and maps in the three representations; tie by exhaustive small maps incl. foreign keys, mutual references, fresh variables", "C08"),
  "C09": C("Coq theorems (essential inputs = variables the function depends on, three algorithms; support = dependence by canonicity) + differential correspondence",
           "proof for all objects; tie by all functions of <= 3 (4) variables with padded inessential inputs in every position", "C09"),
@@ -40,9 +40,9 @@ CLAIMED = {
           "proof for all finite programs over the instruction set (excluding the known-finding conversion D1 and the explicitly empty table); tie by random programs with full observation after every instruction", "C15"),
  "C19": C("Coq theorems about an executable model of the Python layer (py_exec: every call returns what the Rust operation returns, exception classes of failures, PanicException only for the documented refusal) + differential execution of the built extension module against the Rust API and the model's exception classes on the same scripted calls (every method, iterator protocol, every error kind); partial: PyO3 glue is runtime behaviour",
           "the property is itself a correspondence between two executables: the Python layer is modelled as an interpreter of the case language over the Rust-level model and the forwarding / exception theorems are proved about it; the model is tied to the built module by executing every method of the three classes on the same inputs, value for value and exception class for exception class (the expected class comes from the extracted model); the Rust side of every call is covered by the theorems of C01-C18; interpreter aborts are caught as failed shards", "C19"),
- "C20": C("Coq theorems (independence of hash-container iteration order; operands never altered) + repeated-process differential runs (partial: process-level randomness is exercised, not proved)",
+ "C20": C("Coq theorems (independence of hash-container iteration order; operands never altered) + repeated-process differential runs with an in-place purity probe and error texts observed (partial: process-level randomness is exercised, not proved)",
           "proof that the model's results do not depend on the order of the hash containers the code builds and that registers are immutable; every call made twice per process (the second time on node-by-node rebuilt copies of its arguments) and in several processes with fresh hash seeds must agree; histories with short-lived objects and related parser inputs; source scan for interior mutability", "C20"),
- "C16": C("Coq theorems (import sound and complete w.r.t. 'the records describe a complete unambiguous table'; never panics; entry points agree) + differential correspondence",
+ "C16": C("Coq theorems (import sound and complete w.r.t. 'the records describe a complete unambiguous table'; never panics; entry points agree; the reported duplicate name and offending cell characterised) + differential correspondence",
           "proof for all record lists / texts relative to the csv splitter model; tie by all small tables x permutations x spellings, all single-fault mutations, random text, both entry points", "C16"),
  "C17": C("Coq theorems (export/import round trip for csv-safe names, all 16 formattings; line structure) + differential correspondence",
           "proof for all well-formed tables with csv-safe names; tie by every function of <= 3 (4) variables x 16 formattings, byte for byte", "C17"),
